@@ -18,7 +18,7 @@ GEN_VERSION = 1
 # one fixed, distinctive value per context key (all different from every processor default)
 KEY_VALUES: Dict[str, Any] = {
     "a": 1.5, "b": 2.5, "r": 4.0, "factor": 5.0, "addend": 0.75, "path": "p_ctx.txt", "value": 9.0, "gain": 1.25,
-    "zz": 0.125, "p.q": 3.5, "tagsrc": "T0", "nest": {"limits": {"hi": 7, "lo": 1}, "alpha": 2},
+    "zz": 0.125, "items": [1.0, 2.5], "p.q": 3.5, "tagsrc": "T0", "nest": {"limits": {"hi": 7, "lo": 1}, "alpha": 2},
 }
 
 
@@ -70,6 +70,7 @@ SYMBOLS: Dict[str, dict] = {
     "kwtwo": dict(node=_n("VKwTwo"), kind="op", proc="VKwTwo", params=[("factor", NODEF), ("addend", 0.5)], cfg={}, reads=["factor", "addend"]),
     "kwtwo_cfg": dict(node=_n("VKwTwo", {"addend": 0.25}), kind="op", proc="VKwTwo", params=[("factor", NODEF), ("addend", 0.5)], cfg={"addend": 0.25}, reads=["factor", "addend"]),
     "ctxw": dict(node=_n("VCtxWrite"), kind="op", proc="VCtxWrite", params=[], cfg={}, reads=["a"]),
+    "itemsum": dict(node=_n("VItemSum"), kind="op", proc="VItemSum", params=[("items", None)], cfg={}, reads=["items"]),
     "nestw": dict(node=_n("VNestWrite"), kind="op", proc="VNestWrite", params=[("nest", None)], cfg={}, reads=["nest"]),
     "badw": dict(node=_n("VBadWrite"), kind="op", proc="VBadWrite", params=[], cfg={}, reads=[]),
     "fail": dict(node=_n("VFail"), kind="op", proc="VFail", params=[], cfg={}, reads=[]),
